@@ -13,6 +13,23 @@ CHECKS = {
    ref="6 (C17)"),
 }
 
+SESS_TECH = "TLC model checking of EggAbs.tla on model programs (MC_EggAbs) + replay of its transition cover and seeded sessions on the real engine + TLC trace validation (EggAbs_Trace) of the raw state logged after every command"
+SESS_NOTE = "fragment of DESIGN.md section 5 (eq-sorts, constructors, relations, lattice-merge functions, flat rule bodies); bounded model programs and session lengths; the trusted base is TLC, the Json module and the ~250-line Rust dump of raw rows"
+CHECKS.update({
+ "C01": dict(engine="EggAbs", technique=SESS_TECH, note=SESS_NOTE, ref="6 (C01)",
+   text="EggAbs names every e-class by its least ground term, so equality in the specification is the congruence closure by construction; TLC checks on model program P1 that this equality coincides with an independently computed congruence closure of the asserted unions (EqIsCC) over all insert/union histories at the bound, every transition of the model graph is replayed on the real engine, and after every command of every session the logged raw database, renamed by least terms inside TLA+, must equal the specification's state (all represented term pairs, positive and negative), and every issued (check (= t1 t2)) must have the predicted outcome."),
+ "C03": dict(engine="EggAbs", technique=SESS_TECH + "; twin runs seminaive on/off", note=SESS_NOTE + "; monotone programs only", ref="6 (C03)",
+   text="EggAbs.RunOnce is the naive semantics (all matches against the pre-state). Every session is executed twice, with semi-naive evaluation on and off, and both traces must be accepted by the same deterministic specification after every command, so the two modes agree with the oracle and hence with each other; sessions declare rules late, use several rulesets and unions between runs so that per-rule last-run timestamps and rebuild re-stamping are exercised."),
+ "C04": dict(engine="EggAbs", technique=SESS_TECH + "; raw-state invariants evaluated in TLA+ after every command including failing ones", note=SESS_NOTE, ref="6 (C04)",
+   text="After every command (also after commands that fail at run time: panicking rules, :no-merge conflicts) the trace module evaluates on the logged raw state: keys unique per table, every stored id canonical (value_to_class_id(v) = v), no two congruent rows, and the least-term renaming of the raw state equals the specification's state; after a failed run the observed state is adopted and later non-run commands are checked exactly against it."),
+ "C05": dict(engine="EggAbs", technique=SESS_TECH + "; child processes with EGGLOG_PARALLEL_*_CUTOFF=0 and 2/4 threads", note=SESS_NOTE + "; merges min,max,or,and,set-union,set-intersect,:no-merge", ref="6 (C05)",
+   text="EggAbs folds every write with the function's merge (MergeV) at top level, in rule heads and on collisions created by unions (Close); model program P2 is explored exhaustively and replayed; all sessions run on the serial path and on the parallel insertion paths (cut-offs 0, 2 and 4 threads) and the logged function tables must equal the specification's fold; a :no-merge conflict must be an error."),
+ "C06": dict(engine="EggAbs", technique=SESS_TECH + "; every session under 1/2/4/8 threads and cut-offs default/0/mixed", note=SESS_NOTE + "; OS schedules sampled", ref="6 (C06)",
+   text="Every session is run with 1, 2, 4 and 8 threads and with the parallel cut-offs at their defaults, at 0 and mixed (one child process per environment); each trace must be accepted by the same deterministic specification, which makes check outcomes, sizes, values and the least-term-named database equal across configurations."),
+ "C13": dict(engine="EggAbs", technique=SESS_TECH, note=SESS_NOTE + "; delete family runs with seminaive=false", ref="6 (C13)",
+   text="The subsumed flag is a row attribute of EggAbs: Matches ignores subsumed rows, check includes them, Close combines flags with OR when rows collide; model program P4 (subsume at top level and in rule heads, unions merging subsumed and non-subsumed rows in both orders, re-insertion) is explored exhaustively and replayed; sessions interleave subsume/delete/union/push/pop and the logged Enode.subsumed flags, derived relations and check outcomes must equal the specification's after every command, serial and parallel."),
+})
+
 NA = {
 }
 DEFAULT_NA = "check not built yet (work in progress, DESIGN.md section 10)"
